@@ -109,7 +109,7 @@ def body():
                 for e in range(gB.number_of_elements):
                     v = gB.vertices[:, gB.elements[:, e]]
                     x = v[:, [0]] * (1 - pts[0] - pts[1]) + v[:, [1]] * pts[0] + v[:, [2]] * pts[1]
-                    if np.abs(cloud[nq * e : nq * e + nq].T - x).max() > 1e-13:
+                    if not (np.abs(cloud[nq * e : nq * e + nq].T - x).max() <= 1e-13):   # NaN counts as a deviation
                         ok = False
                 if not ok:
                     fail("point_cloud:order", "map_to_point_cloud(%d) is not ordered as nq*e+q with the points of the triangle rule" % order)
@@ -164,7 +164,7 @@ def body():
                 Wm = tested(p.maxwell.magnetic_field(spA["RWG"], cloud.T, k), spA["RWG"], spB["SNC"], "xn")
                 chk.count((label, "maxwell.magnetic_field", order), True)
                 e_ = np.abs(Mm - Wm).max() / max(1e-12, np.abs(Wm).max())
-                if e_ > TOL:
+                if not (e_ <= TOL):   # NaN counts as a deviation
                     fail("tested_potential:maxwell.magnetic_field", "magnetic-field matrix differs from the tested (potential x n) by %.3g (order %d)" % (e_, order))
                 # the electric-field identity integrates by parts on the test side: test functions must not carry boundary flux
                 sncE = api.function_space(gB, "SNC", 0, include_boundary_dofs=False, **segB)
